@@ -10,6 +10,8 @@
     the invariant is re-established;
 (c) `Intervals<i64>::values_len`, translated from MIR: whenever it lets `into_values` enumerate (len < capacity) the
     hull really has fewer than `capacity` points (otherwise into_values enumerates up to 2^63 values: non-termination).
+(d) pipeline sweep - CONCRETE ENUMERATION, not a solver claim: the real compiler and the real DP rewriter are run on the programs of
+    the other checks' catalogues plus zero-bound / overflow shapes; every panic is reported (keyed by message and site).
 Counterexamples are replayed through the real code (Function::value / super_image, SQL -> Relation, into_data_type).
 """
 import os, sys, re, json, time
@@ -308,6 +310,43 @@ def main():
             add("c/values_len/enumerates-only-small-hulls/" + rk, enc.decls, pre + [lnot(panic), some, "(bvult %s %s)" % (ln, cap), width_ge_cap, rp], [mn, mx], dict(info, what="enumerate"))
         add("W/c/values_len", enc.decls, pre + [lnot(panic), some, "(bvult %s %s)" % (ln, cap)], [mn, mx], dict(info, what="witness"))
         ck.sample(dict(function=name, stubs_used=sorted(set(tr.stubs_used))))
+
+    # ------------------------------------------------------------------ (d) pipeline sweep (enumeration, stated as such)
+    # The solver parts above are kernel level. Whether a *call site* feeds a kernel a value outside its safe domain is a
+    # property of the pipeline, which cannot be executed symbolically; what can be done is to run the real compiler and the real
+    # DP rewriter on the catalogues of the other checks and to report every panic. This part is concrete enumeration.
+    import progs, pucat
+    sweep = []
+    cat = progs.catalogue(2)
+    rel_programs = list(progs.FIXED) + [
+        "SELECT a, sum(g) * 2 + a AS v FROM t GROUP BY a", "SELECT c, sum(a) / count(a) AS r FROM t GROUP BY c", "SELECT a FROM t UNION SELECT a FROM u UNION SELECT g FROM t",
+        "SELECT a FROM (SELECT a FROM t) AS s0 UNION SELECT a FROM u", "SELECT a / g AS q FROM t", "SELECT a % g AS q FROM t", "SELECT log(a) / 2 AS q FROM t", "SELECT ln(b) AS q FROM t",
+        "SELECT round(b, 400) AS q FROM t", "SELECT trunc(b, -400) AS q FROM t", "SELECT sqrt(g) AS q FROM t", "SELECT a FROM t LIMIT 0", "SELECT 1", "SELECT a FROM t WHERE a IN (1, 2) ORDER BY a LIMIT 1 OFFSET 5",
+        "SELECT exp(a) / exp(g) AS q FROM t", "SELECT abs(g) / a AS q FROM t WHERE a > 0", "SELECT sum(a) AS s FROM t WHERE a = 0 GROUP BY c",
+    ]
+    for sql in rel_programs:
+        sweep.append(("relation", sql, dict(op="relation", tables=cat, sql=sql)))
+    dp_programs = ["SELECT sum(amount) AS s FROM orders", "SELECT kind, avg(amount) AS m FROM orders GROUP BY kind", "SELECT sum(amount) AS s FROM orders WHERE amount = 0",
+                   "SELECT sum(amount * 0) AS s FROM orders", "SELECT count(qty) AS n FROM orders WHERE qty IN (0)", "SELECT avg(amount) AS m FROM orders WHERE amount >= 0 AND amount <= 0",
+                   "SELECT sum(frac) AS f, variance(frac) AS v FROM orders", "SELECT qty, count(*) AS n FROM orders GROUP BY qty", "SELECT stddev(bal) AS sd FROM orders WHERE bal = 0",
+                   "SELECT sum(o.amount) AS s FROM orders AS o JOIN users AS u ON o.user_id = u.id WHERE u.age = 0", "SELECT sum(age) AS s FROM users WHERE age < 0"]
+    ptabs, pus = pucat.tables(2), pucat.pu_defs()
+    for sql in dp_programs:
+        for prm in (dict(epsilon=1.0, delta=1e-3), dict(epsilon=1.0, delta=1e-3, privacy_unit_max_multiplicity=0.0, privacy_unit_max_multiplicity_share=0.0)):
+            sweep.append(("rewrite_dp", sql, dict(op="rewrite", mode="dp", tables=ptabs, privacy_unit=pus["chain"], dp=prm, synthetic=False, sql=sql)))
+    sw_ans = driver.parallel_batch([j for _, _, j in sweep], workers=12, timeout=120.0)
+    n_sweep_panics = 0
+    for (kind, sql, job), ans in zip(sweep, sw_ans):
+        if "panic" in ans:
+            n_sweep_panics += 1
+            msg = ans["panic"]
+            site = re.search(r" at (?:/[^ ]*?/)?(src/[^ :]+|library/[^ :]+):(\d+)", msg)
+            cls = re.sub(r"\(\\?\"[^\"]*\\?\"\)", "", re.sub(r" at /.*$", "", msg)).replace("called `Result::unwrap()` on an `Err` value: ", "unwrap-Err:").replace("called `Option::unwrap()` on a `None` value", "unwrap-None").strip()
+            cls = re.sub(r"[^A-Za-z0-9:<>=_-]+", "-", cls)[:60].strip("-")
+            key = "pipeline=panic/%s/%s@%s" % (kind, cls, (site.group(1).replace("src/", "") if site else "?"))
+            ck.violation(key, "%s panics on `%s`%s: %s" % ("sql -> Relation" if kind == "relation" else "rewrite_with_differential_privacy", sql, "" if kind == "relation" else " (%s)" % json.dumps(job["dp"]), msg), dict(sql=sql, kind=kind, panic=msg))
+        elif "timeout" in ans or "crash" in ans:
+            ck.inconclusive("pipeline sweep: the driver failed on `%s`: %s" % (sql, json.dumps(ans)[:120]))
 
     # ------------------------------------------------------------------ solve + replay
     results = smt.solve_all(queries, tq, workers=14)
